@@ -59,6 +59,7 @@ type rndTag struct {
 }
 
 type randomWorkload struct {
+	twin map[string]bool // ids shared by two requests of one requester in one block (outside the quantifier)
 	answerAll bool // every seed request is answered properly (no time-outs, errors or foreign answers)
 	holdNew   bool // no new random requests for the time being
 	run      *ev.Run
@@ -206,6 +207,19 @@ func (w *randomWorkload) Next(block int) []rig.Tx {
 		}
 		out = append(out, r.Mk(a, &rndTag{Kind: kind, Key: fmt.Sprint(interval)}, &randomtypes.MsgRequestRandom{BlockInterval: interval, Consumer: a.Addr.String(), Oracle: oracle, ServiceFeeCap: cap}))
 	}
+	// every twentieth block one requester asks twice in one block, with two long intervals: the two requests share their
+	// id (it is a hash of request height and consumer) and wait under two due heights - outside this property's quantifier
+	// (one request per requester and block), but a state every other part of the chain has to live with
+	if block%20 == 5 && len(r.Accounts) > 3 {
+		a := r.Acc(2 + perm[len(perm)-1])
+		if !w.usedThis[a.Addr.String()] {
+			w.usedThis[a.Addr.String()] = true
+			out = append(out, r.Mk(a, &rndTag{Kind: "request", Key: "twin-long"},
+				&randomtypes.MsgRequestRandom{BlockInterval: 12, Consumer: a.Addr.String()},
+				&randomtypes.MsgRequestRandom{BlockInterval: 31, Consumer: a.Addr.String()}))
+			w.run.Count("one-requester-two-long-requests-in-one-block", 1)
+		}
+	}
 	// a requester whose balance dips below the fee cap of its pending oracle request (but not below the provider's price)
 	// between the request and its due height, and is topped up again later
 	if !w.quiet && len(r.Accounts) >= 10 {
@@ -274,7 +288,17 @@ func (w *randomWorkload) Observe(br *rig.BlockRecord) {
 				}
 				id := reqIDOf(H, m.Consumer)
 				if _, dup := w.reqs[id]; dup {
-					continue // out of scope: second request of one requester in one block
+					// out of scope: second request of one requester in one block - the two share their id, and so does
+					// everything kept under it; nothing is judged for that id from here on
+					if w.twin == nil {
+						w.twin = map[string]bool{}
+					}
+					w.twin[id] = true
+					delete(w.reqs, id)
+					continue
+				}
+				if w.twin[id] {
+					continue
 				}
 				rq := &rndReq{Consumer: m.Consumer, H: H, Due: H + int64(m.BlockInterval), Oracle: m.Oracle}
 				w.reqs[id] = rq
@@ -385,6 +409,9 @@ func (w *randomWorkload) Observe(br *rig.BlockRecord) {
 	// 3. write-once: results never change or disappear; new results only for requests that fell due / were answered
 	if w.prevRes != nil {
 		for id, v := range w.prevRes {
+			if w.twin[id] {
+				continue
+			}
 			run.Eval(1)
 			nv, ok := post.Results[id]
 			if !ok {
@@ -394,7 +421,7 @@ func (w *randomWorkload) Observe(br *rig.BlockRecord) {
 			}
 		}
 		for id := range post.Results {
-			if _, old := w.prevRes[id]; old {
+			if _, old := w.prevRes[id]; old || w.twin[id] {
 				continue
 			}
 			rq := w.reqs[id]
